@@ -60,7 +60,7 @@ func cases(tier string, seed int64) []eng.Case {
 	}
 	n := 240
 	if tier == "thorough" {
-		n = 3000
+		n = 9000
 	}
 	for i := 0; i < n; i++ {
 		c := cfg{Ring: eng.Pick(r, "std", "std", "std", "ci"), Xs: eng.Pick(r, "p0.5", "p0.5", "h8", "hN", "gauss"), LogN: eng.Pick(r, 4, 5, 6)}
@@ -632,6 +632,12 @@ func runKS(c *eng.Ctx, cf cfg) {
 						}
 					}
 					qp := rlwe.NewElementExtended(params, 1, level, lp)
+					if lp < params.MaxLevelP() && rnd.Bool() {
+						// receiver with more P rows than the key (what RotateHoistedLazyNew allocates): the key's
+						// LevelP decides the modulus of the result
+						qp = rlwe.NewElementExtended(params, 1, level, params.MaxLevelP())
+						c.Count("hoisted_lazy_receiver_above_key_levelP", 1)
+					}
 					qp.IsNTT = true
 					var lerr error
 					if c.Try("C04|Evaluator.AutomorphismHoistedLazy", func() { lerr = evalG.AutomorphismHoistedLazy(level, cta, buf, g, qp) }) {
